@@ -4,6 +4,7 @@ import itertools
 from .. import common, gen, trees
 
 LEVEL = "proof"
+EXTRA_LEAN_MODULES = ["Luqum.Props.GenVisitAht"]   # visit methods translated from the source (tools/pysym.py)
 RULE = ("operations (AND / OR / implicit / bool, 1-6 operands, nesting <= 3) whose operands are comparisons, "
         "one-sided / closed / both-open ranges with all inclusiveness flags, the same wrapped in boost / field / "
         "group / NOT, words and nested operations; merge on and off; add_head in {' ', ''}; thorough adds every "
